@@ -39,7 +39,7 @@ def make_linepos(K, source, J=0):
             off = fresh_int(c, "off", 0)
             c.assume(off.e <= n)
             nls = list(tb.iter_indices_of_newlines(s))  # REAL newline scan over the abstract text
-            tf = TemplatedFile.__new__(TemplatedFile)
+            tf = TemplatedFile(source_str="", fname="f")   # REAL constructor (whatever state it sets up), then the tables
             # the table under test is filled from the real scan, the other one is poisoned
             tf._source_newlines = nls if source else [SymInt(z3.IntVal(-7))]
             tf._templated_newlines = [SymInt(z3.IntVal(-7))] if source else nls
@@ -77,6 +77,80 @@ def replay_linepos(K, source, J=0):
         want = [i for i, ch in enumerate(text) if ch == "\n"]
         if idx != want:
             return f"text={text!r}: newline index {idx} != positions of the newlines {want} (every later line/column is off)"
+        return None
+    return replay
+
+
+def make_history(K1, K2):
+    """One TemplatedFile whose source and rendered text have DIFFERENT newline layouts; an arbitrary earlier lookup
+    (any offset, either text) precedes the examined lookup (any offset, either text) on the same object."""
+    def factory(excluded=frozenset()):
+        tb.len = sym_len
+
+        def harness(c):
+            from symlite.values import fresh_bool
+            n1, ps1, s1 = _nlstr(c, K1, name="n_src")
+            # second text: own names
+            n2 = c.declare("n_tpl", z3.Int("n_tpl"))
+            c.assume(n2 >= 0)
+            ps2, prev = [], -1
+            for i in range(K2):
+                p = c.declare(f"t{i}", z3.Int(f"t{i}"))
+                c.assume(z3.And(p > prev, p < n2))
+                prev = p
+                ps2.append(p)
+            s2 = NLStr(n2, [SymInt(p) for p in ps2], [])
+            tf = TemplatedFile(source_str="", fname="f")   # REAL constructor, then the two REAL newline scans
+            tf._source_newlines = list(tb.iter_indices_of_newlines(s1))
+            tf._templated_newlines = list(tb.iter_indices_of_newlines(s2))
+            has_prev = bool(fresh_bool(c, "has_earlier_lookup"))
+            if has_prev:
+                src0 = bool(fresh_bool(c, "earlier_in_source"))
+                off0 = fresh_int(c, "earlier_off", 0)
+                c.assume(off0.e <= (n1 if src0 else n2))
+                tf.get_line_pos_of_char_pos(off0, source=src0)
+            src = bool(fresh_bool(c, "in_source"))
+            off = fresh_int(c, "off", 0)
+            n, ps = (n1, ps1) if src else (n2, ps2)
+            c.assume(off.e <= n)
+            line, col = tf.get_line_pos_of_char_pos(off, source=src)
+            cnt = z3.Sum([z3.If(p < off.e, 1, 0) for p in ps]) if ps else z3.IntVal(0)
+            last = z3.IntVal(-1)
+            for p in ps:
+                last = z3.If(p < off.e, p, last)
+            if has_prev and src0 != src and bool(off0 == off):
+                c.witness("same_offset_other_text")
+            if has_prev and src0 == src:
+                c.witness("same_text_twice")
+            return z3.And(lift(line) == 1 + cnt, lift(col) == off.e - last)
+        return harness
+    return factory
+
+
+def replay_history(K1, K2):
+    def replay(cex):
+        from sqlfluff.core.templaters.base import RawFileSlice, TemplatedFileSlice
+        if "len" in vars(tb):
+            del tb.len
+        n1, n2 = int(cex["n_src"]), int(cex["n_tpl"])
+        ps1 = [int(cex[f"p{i}"]) for i in range(K1)]
+        ps2 = [int(cex[f"t{i}"]) for i in range(K2)]
+        src_text = "".join("\n" if i in ps1 else "x" for i in range(n1))
+        tpl_text = "".join("\n" if i in ps2 else "y" for i in range(n2))
+        tf = TemplatedFile(source_str=src_text, fname="f", templated_str=tpl_text,
+                           sliced_file=[TemplatedFileSlice("templated", slice(0, n1), slice(0, n2))],
+                           raw_sliced=[RawFileSlice(src_text, "templated", 0)])
+        hist = ""
+        if cex.get("has_earlier_lookup"):
+            tf.get_line_pos_of_char_pos(int(cex.get("earlier_off", 0)), source=bool(cex.get("earlier_in_source")))
+            hist = f" after a lookup of offset {int(cex.get('earlier_off', 0))} in the {'source' if cex.get('earlier_in_source') else 'rendered'} text"
+        src, off = bool(cex.get("in_source")), int(cex.get("off", 0))
+        text = src_text if src else tpl_text
+        got = tf.get_line_pos_of_char_pos(off, source=src)
+        exp = (1 + text[:off].count("\n"), off - (text.rfind("\n", 0, off)))
+        if tuple(got) != exp:
+            return (f"source={src_text!r} rendered={tpl_text!r}: offset {off} of the {'source' if src else 'rendered'} text{hist} "
+                    f"-> {got}, expected {exp}")
         return None
     return replay
 
@@ -138,6 +212,18 @@ def units(tier, seed):
             stubs=["raw = NLStr abstraction (len, split('\\n'))", "markers.len = sym_len"],
             outside=[f"raws with more than {kmax} newlines"],
             sharded=False, timeout_s=300))
+    for K1, K2 in ([(1, 0), (1, 2), (2, 1)] if tier == "quick" else [(a, b) for a in range(4) for b in range(4)]):
+        us.append(Unit(
+            name=f"c31.linepos_history[source K={K1},rendered K={K2}]",
+            functions=["sqlfluff.core.templaters.base.TemplatedFile.__init__", "TemplatedFile.get_line_pos_of_char_pos",
+                       "sqlfluff.core.templaters.base.iter_indices_of_newlines"],
+            bounds={"newlines in source": K1, "newlines in rendered text": K2, "text lengths": "unbounded, independent",
+                    "earlier lookups on the same object": "0 or 1 (any offset, either text)"},
+            make=make_history(K1, K2), replay=replay_history(K1, K2),
+            stubs=["two NLStr texts with independent newline layouts; the object is built by the real constructor and its two "
+                   "newline tables are then filled by the real scan of the abstract texts"],
+            outside=["more than one earlier lookup"],
+            witnesses_required=["same_offset_other_text", "same_text_twice"], sharded=False, timeout_s=300))
     for K in ([0, 1, 2] if tier == "quick" else [0, 1, 2, 3, 4]):
         us.append(Unit(
             name=f"c31.linepos[K={K},+1 non-LF line break,source]",
